@@ -552,6 +552,11 @@ func checkC09(w *World, r *Report) {
 	r.Rule("C09.R6", "no path publishes two dead letters for one send; a send never runs the receiver on the caller's goroutine", 4)
 	checkSingleDeadLetter(w, r, "C09.R6")
 	checkSchedulerAsync(w, r, "C09.R6")
+	r.Rule("C09.R7", "the event reaches the subscribers through inbox rings whose element transfers are sound (C14.R2-R5); a stopping actor is unregistered before any user code runs, so a send that finds it gone dead-letters (C10.R6)", 8)
+	importRules(w, r, checkC14, "C14", "C09.R7", func(o *Obligation) bool {
+		return o.Rule == "C14.R2" || o.Rule == "C14.R3" || o.Rule == "C14.R4" || o.Rule == "C14.R5"
+	})
+	importRules(w, r, checkC10, "C10", "C09.R7", func(o *Obligation) bool { return o.Rule == "C10.R6" })
 	if w.mayDo(es, EvCall("BroadcastEvent", a.eBroadcast), 0) {
 		r.Fail("C09.R5", "eventStream.Receive->BroadcastEvent", "forwarding an event can never synchronously publish another event", w.fnPos(es),
 			"call path eventStream.Receive -> Context.Forward -> SendWithSender -> send -> SendLocal[registry miss] -> BroadcastEvent: a subscriber that stopped without unsubscribing turns every event into a dead letter, which is itself an event")
@@ -855,6 +860,14 @@ func checkC10(w *World, r *Report) {
 		}
 		r.Check(ok, "C10.R6", fname(pr.stopFn)+":releases-id", "Registry.Remove(p.pid) precedes the Stopped delivery on every path of the stop function", w.fnPos(pr.stopFn),
 			"a stopped actor whose Stopped handler panics stays registered: GetPID keeps answering and the id can never be spawned again")
+	}
+	// R7: a process that was unregistered never comes back: it is not restarted after the budget
+	// was exhausted and its inbox is not reopened after cleanup (it would run cleanup again and
+	// remove the entry of the actor that took over the id)
+	r.Rule("C10.R7", "after the stop function ran, the process is neither restarted nor is its inbox reopened (C06.R1, typestate)", 2)
+	importRules(w, r, checkC06, "C06", "C10.R7", func(o *Obligation) bool { return o.Rule == "C06.R1" && strings.Contains(o.Key, "exhausted-edge") })
+	if pr := w.findProcRoles(); !pr.fail(r, "C10.R7") && pr.lta != nil {
+		pr.lta.export(r, "C10.R7", []string{"inbox-started-after-cleanup", "inbox-reopened-by-worker"}, "the inbox of a process that ran its stop function is never started again")
 	}
 	// R4
 	{
@@ -1403,8 +1416,14 @@ func checkC12(w *World, r *Report) {
 
 	// R5: per-subscriber order is the order of the subscriber's inbox ring
 	r.Rule("C12.R5", "events reach a subscriber through a ring whose element transfers respect the ring origin (C14.R2-R4) and a batch loop that visits elements in order (C01.R4)", 8)
-	importRules(w, r, checkC14, "C14", "C12.R5", func(o *Obligation) bool { return o.Rule == "C14.R2" || o.Rule == "C14.R3" || o.Rule == "C14.R4" })
+	importRules(w, r, checkC14, "C14", "C12.R5", func(o *Obligation) bool {
+		return o.Rule == "C14.R2" || o.Rule == "C14.R3" || o.Rule == "C14.R4" || o.Rule == "C14.R5"
+	})
+	r.Rule("C12.R6", "a duplicate spawn is detected in one critical section with the insert, so that every duplicate publishes ActorDuplicateIdEvent (C10.R2)", 4)
+	importRules(w, r, checkC10, "C10", "C12.R6", func(o *Obligation) bool { return o.Rule == "C10.R2" })
 	importRules(w, r, checkC01, "C01", "C12.R5", func(o *Obligation) bool { return o.Rule == "C01.R4" })
+	// (and across a restart: the unprocessed rest of the batch is replayed before newer messages are taken)
+	importRules(w, r, checkC05, "C05", "C12.R5", func(o *Obligation) bool { return o.Rule == "C05.R2" && strings.Contains(o.Key, "replay-before-inbox") })
 	// R4 lifecycle events
 	pr := w.findProcRoles()
 	if !pr.fail(r, "C12.R4") {
